@@ -37,7 +37,7 @@ def splitHandlers : List Tok → List Tok → List (List Tok)
     if isHandlerStart t then cur.reverse :: splitHandlers r [t] else splitHandlers (t :: r) (.nl :: cur)
   | t :: r, cur => splitHandlers r (t :: cur)
 
-def readLoose (ts : List Tok) : Option (Script × List (Option Handler)) :=
+def readLoose (ts : List Tok) : Option (Script × List (Option Handler) × List Name) :=
   let fuel := 4 * ts.length + 16
   match pHeader fuel ts { factory := [], props := [], globals := [], handlers := [] } with
   | some (s, r) =>
@@ -45,7 +45,8 @@ def readLoose (ts : List Tok) : Option (Script × List (Option Handler)) :=
     let se : ScriptEnv := { props, globals := s.globals, handlers := handlerNames (.nl :: r) }
     let parts := (splitHandlers (.nl :: skipNl r) []).filter fun p => (skipNl p) ≠ []
     let hs := parts.map fun p => (pHandler se fuel (skipNl p)).bind fun (h, rest) => if skipNl rest = [] then some h else none
-    some ({ s with props, handlers := hs.filterMap id }, hs)
+    let names := parts.map fun p => match skipNl p with | _ :: .id n :: _ => n | _ => []
+    some ({ s with props, handlers := hs.filterMap id }, hs, names)
   | none => none
 
 /-- commands of the `lspec` family (see harness/lingo_gen.py) -/
@@ -74,7 +75,7 @@ def run : List String → Option String
     | some ts =>
       match readLoose ts with
       | none => some "error header"
-      | some (s, hs) =>
+      | some (s, hs, allNames) =>
         let comp := if hs.all Option.isSome then compile { pre, scrNum := n } s else .error "unreadable-handler"
         let whole := match comp with
           | .ok c => hx c.lscr
@@ -88,7 +89,8 @@ def run : List String → Option String
               | .ok b => hx b
               | .error e => "error:" ++ e.replace " " "_")
           | none => "unreadable\t-"
-        some ("\t".intercalate (["ok", whole, ",".intercalate inScript, str (headerSX s).render] ++ parts))
+        let hdr := headerSX { s with handlers := allNames.map fun n => { name := n, params := [], isMethod := false, body := [] } }
+        some ("\t".intercalate (["ok", whole, ",".intercalate inScript, str hdr.render] ++ parts))
   -- readlingo <hex text> -> ok <script sexpr> (strict reader: the one the theorems are about)
   | ["readlingo", htext] => do
     match readLingo (← charsOfHex htext) with
